@@ -1,9 +1,193 @@
 import KG.Base.Json
-/-! Driver entry points for property C10 (filled in by the C10 model). -/
-namespace KG.Driver.C10
-open Lean
+import KG.Spec.Names
+/-!
+Driver entry points for C10 (tenant resolution).
 
-/-- `handle method args`: `none` when the method is unknown. -/
-def handle (_m : String) (_a : Json) : Option (Except String Json) := none
+* `C10.run`   — runs the model on a whole history (lister writes and handler invocations) and reports, after
+  every step, the manager state, the resolution of every probe host, the TLS material per SNI, the verify
+  options per host, and the judge evaluated on the model's own states.
+* `C10.judge` — evaluates the same judge (`KG.Spec.Names.invB/stepB/mirrorB/servedB`, `tlsSpec`, `verifySpec`)
+  on the states OBSERVED ON THE REAL CONTROLLER.
+* `C10.hwp`   — `HostWithoutPort` on a list of strings.
+
+`strings.ToLower`: ASCII lower-casing, overridden by the table `lower` (pairs computed by Go) for the
+non-ASCII stream.
+-/
+namespace KG.Driver.C10
+open Lean KG KG.Model.Names KG.Spec.Names
+
+def mkLower (tbl : List (Str × Str)) (s : Str) : Str :=
+  match tbl.lookup s with
+  | some t => t
+  | none => asciiLower s
+
+def decodeLower (a : Json) : Except String (Str → Str) := do
+  match J.optObj a "lower" with
+  | none => pure asciiLower
+  | some t =>
+    let arr ← t.getArr?
+    let pairs ← arr.toList.mapM fun p => do
+      let l ← p.getArr?
+      match l.toList with
+      | [x, y] => pure ((← J.asHex x), (← J.asHex y))
+      | _ => throw "lower: pair expected"
+    pure (mkLower pairs)
+
+def optNat (j : Json) (k : String) : Except String (Option Nat) := do
+  let i ← J.getInt j k
+  pure (if i < 0 then none else some i.toNat)
+
+def encOptNat : Option Nat → Json
+  | none => J.int (-1)
+  | some n => J.nat n
+
+def decodeSpec (j : Json) : Except String Spec := do
+  pure { aliases := ← J.getHexList j "aliases", cert := ← optNat j "cert", ca := ← optNat j "ca",
+         bad := ← J.getBool j "bad" }
+
+def decodeStep (j : Json) : Except String Step := do
+  let k ← J.getStr j "k"
+  let name ← J.getHex j "name"
+  match k with
+  | "set" => pure (.set name (← decodeSpec (← J.getObj j "spec")))
+  | "unset" => pure (.unset name)
+  | "sync" => pure (.sync name)
+  | _ => throw s!"unknown step kind {k}"
+
+def decodeTLS (j : Json) : Except String TLS := do
+  pure { cert := ← optNat j "cert", ca := ← optNat j "ca", requestClientCert := ← J.getBool j "auth" }
+
+def encTLS (t : TLS) : Json := Json.arr #[encOptNat t.cert, encOptNat t.ca, J.bool t.requestClientCert]
+
+def dedup : List Str → List Str → List Str
+  | [], _ => []
+  | k :: rest, seen => if k ∈ seen then dedup rest seen else k :: dedup rest (k :: seen)
+
+def encState (lower : Str → Str) (m : Mgr) : Json :=
+  let keys := dedup (m.map.map (·.1)) []
+  J.obj [
+    ("keys", Json.arr (keys.map fun k => Json.arr #[J.hex k, encOptNat (m.look k)]).toArray),
+    ("infos", Json.arr (m.heap.map fun ci =>
+        J.obj [("cluster", J.hex ci.cluster), ("aliases", J.hexList (ci.aliases.map lower)),
+               ("cert", encOptNat ci.cert), ("ca", encOptNat ci.ca)]).toArray),
+    ("stopped", Json.arr ((List.range m.heap.length).filter (fun p => decide (p ∈ m.stopped)) |>.map J.nat).toArray)]
+
+def decodeState (j : Json) : Except String Mgr := do
+  let keys ← (← J.getArr j "keys").toList.mapM fun e => do
+    match (← e.getArr?).toList with
+    | [k, p] => pure ((← J.asHex k), (← p.getNat?))
+    | _ => throw "state: key pair expected"
+  let infos ← (← J.getArr j "infos").toList.mapM fun e => do
+    pure ({ cluster := ← J.getHex e "cluster", aliases := ← J.getHexList e "aliases",
+            cert := ← optNat e "cert", ca := ← optNat e "ca" } : CI)
+  let stopped ← (← J.getArr j "stopped").toList.mapM (·.getNat?)
+  pure { heap := infos, stopped := stopped, map := keys }
+
+/-- the hostname `WrapGetConfigForClient` looks up -/
+def tlsExpect (lower : Str → Str) (m : Mgr) (base : TLS) (sni localAddr : Str) : TLS :=
+  let hostname? := if sni.isEmpty then splitHostPort localAddr else some sni
+  match hostname? with
+  | none => base
+  | some h => tlsSpec lower m base h
+
+def ptrOf (r : Option (Nat × CI)) : Json := encOptNat (r.map (·.1))
+
+structure Env where
+  lower : Str → Str
+  probes : List Str
+  snis : List Str
+  localAddr : Str
+  base : TLS
+
+def decodeEnv (a : Json) : Except String Env := do
+  pure { lower := ← decodeLower a, probes := ← J.getHexList a "probes", snis := ← J.getHexList a "snis",
+         localAddr := ← J.getHex a "localAddr", base := ← decodeTLS (← J.getObj a "base") }
+
+def doRun (a : Json) : Except String Json := do
+  let env ← decodeEnv a
+  let lower := env.lower
+  let steps ← (← J.getArr a "steps").toList.mapM decodeStep
+  let rec go (w : World) (ss : List Step) (acc : Array Json) : Array Json :=
+    match ss with
+    | [] => acc
+    | s :: rest =>
+      let (w', out) := w.step lower s
+      let m := w.mgr
+      let m' := w'.mgr
+      let (admit, why) : Bool × String := match s with
+        | .set n sp => (pluginAdmits lower w.lister n sp, if unchangedB m m' then "" else "lister-write-changed")
+        | .unset _ => (true, if unchangedB m m' then "" else "lister-write-changed")
+        | .sync n =>
+          (true, stepWhy lower (lower n) (w.lister.get n) (out.map (·.requeue) |>.getD false) m m')
+      let j := J.obj [
+        ("out", Json.str (match out with | some o => o.toString | none => "")),
+        ("requeue", J.bool (out.map (·.requeue) |>.getD false)),
+        ("admit", J.bool admit),
+        ("state", encState lower m'),
+        ("get", Json.arr (env.probes.map fun h => ptrOf (m'.get lower h)).toArray),
+        ("req", Json.arr (env.probes.map fun h => ptrOf (resolve lower m' h)).toArray),
+        ("tls", Json.arr (env.snis.map fun h => encTLS (wrapGetConfigForClient lower m' env.base h env.localAddr)).toArray),
+        ("verify", Json.arr (env.probes.map fun h => encOptNat (sniVerifyOptions lower m' h)).toArray),
+        ("inv", J.bool (invB lower m')),
+        ("step", Json.str why),
+        ("mirror", J.bool (mirrorB lower w'.lister m' && servedB lower w'.lister m' env.probes))]
+      go w' rest (acc.push j)
+  pure <| J.obj [
+    ("hwp", J.hexList (env.probes.map (hostWithoutPort lower))),
+    ("steps", Json.arr (go World.init steps #[]))]
+
+/-- the judge on implementation states -/
+def doJudge (a : Json) : Except String Json := do
+  let env ← decodeEnv a
+  let lower := env.lower
+  let steps ← (← J.getArr a "steps").toList.mapM decodeStep
+  let obs := (← J.getArr a "obs").toList
+  -- `settled`: per step, whether the history is admissible and every lister write so far has been synced
+  let settled ← (← J.getArr a "settled").toList.mapM (·.getBool?)
+  if obs.length ≠ steps.length ∨ settled.length ≠ steps.length then throw "obs/settled length"
+  let rec go (i : Nat) (lister : Lister) (m : Mgr) (ss : List (Step × Json × Bool)) : Except String Json :=
+    match ss with
+    | [] => pure (J.obj [("fail", Json.str "")])
+    | (s, o, st) :: rest => do
+      let m' ← decodeState (← J.getObj o "state")
+      let requeue ← J.getBool o "requeue"
+      let tls ← (← J.getArr o "tls").toList.mapM decodeTLS
+      let verify ← (← J.getArr o "verify").toList.mapM fun v => do
+        let i ← v.getInt?
+        pure (if i < 0 then none else some i.toNat)
+      let req ← (← J.getArr o "req").toList.mapM fun v => do
+        let i ← v.getInt?
+        pure (if i < 0 then none else some i.toNat)
+      let lister' := match s with
+        | .set n sp => lister.set n sp
+        | .unset n => lister.unset n
+        | .sync _ => lister
+      let fail (why : String) : Except String Json :=
+        pure (J.obj [("fail", Json.str why), ("step", J.nat i)])
+      let why := match s with
+        | .sync n => stepWhy lower (lower n) (lister.get n) requeue m m'
+        | _ => if unchangedB m m' then "" else "lister-write-changed"
+      if !invB lower m' then fail "inv"
+      else if why ≠ "" then fail why
+      else if req ≠ env.probes.map (fun h => (resolve lower m' h).map (·.1)) then fail "request-resolution"
+      else if tls ≠ env.snis.map (fun h => tlsExpect lower m' env.base h env.localAddr) then fail "tls"
+      else if verify ≠ env.probes.map (fun h => verifySpec lower m' h) then fail "verify"
+      else if st && requeue then fail "admissible-refused"
+      else if st && !(mirrorB lower lister' m') then fail "mirror"
+      else if st && !(servedB lower lister' m' env.probes) then fail "served"
+      else go (i + 1) lister' m' rest
+  go 0 [] Mgr.init (steps.zip (obs.zip settled))
+
+def doHwp (a : Json) : Except String Json := do
+  let lower ← decodeLower a
+  let hs ← J.getHexList a "hosts"
+  pure (J.hexList (hs.map (hostWithoutPort lower)))
+
+def handle (m : String) (a : Json) : Option (Except String Json) :=
+  match m with
+  | "run" => some (doRun a)
+  | "judge" => some (doJudge a)
+  | "hwp" => some (doHwp a)
+  | _ => none
 
 end KG.Driver.C10
